@@ -404,6 +404,7 @@ func c13Draw(t *sim.Tape, o c13GenOpts) *c13Case {
 	cs := b.cs
 	g := &c13Gen{t: t, o: o, b: b}
 	cs.Batch = []int{1, 2, 3, 4, 5, 50}[t.Choose(6)]
+	cs.EmptyInjecting = t.Chance(1, 3)
 	if t.Chance(1, 4) {
 		cs.Configured = true
 		cs.Batch = blobstore.RecommendedFindMissingDigestsCount
